@@ -5,7 +5,7 @@
 From stdpp Require Import gmap.
 From Coq Require Import NArith.
 From RV Require Import Base.Str Base.Utf8 Base.PathLex Path.Helpers Path.Expand Path.Abs Memfs.State Memfs.Ops Memfs.Walk Memfs.WalkOps Memfs.Step
-  Memfs.Wf Memfs.WfMore Memfs.WfMove Memfs.Spec Memfs.Refine Memfs.RefineMore Memfs.RefineChown Memfs.RefineChmod Memfs.RefineMove Memfs.ContentFacts Memfs.Kinds Memfs.RemoveAll Memfs.LinkFacts
+  Memfs.Wf Memfs.WfMore Memfs.WfMove Memfs.Spec Memfs.Refine Memfs.RefineMore Memfs.RefineChown Memfs.RefineChmod Memfs.RefineList Memfs.RefineMove Memfs.ContentFacts Memfs.Kinds Memfs.RemoveAll Memfs.LinkFacts
   Macros.Asserts.
 
 Definition resolve_t (env : envmap) (t : tree) (s : list N) : mres rpath :=
@@ -140,6 +140,10 @@ Definition spec_step (env : envmap) (t : tree) (o : op) : option (tree * result)
                               end
                    end
   | ORoot => Some (t, inl (VPath (render_rpath [])))
+  | OList k s => Some (t, match resolve_t env t s with
+                          | inr _ => inr EIsNotDir
+                          | inl p => if spec_is_dir t p then inl (VPaths (spec_list t k p)) else inr EIsNotDir
+                          end)
   | OChmod s o => if ch_follow o || negb (bool_decide (ch_sym o = [])) || N.eqb (ch_dirs o) 0 || N.eqb (ch_files o) 0 then None else
                   match resolve_t env t s with
                   | inr e => Some (t, inr e)
@@ -282,6 +286,11 @@ Proof.
     destruct (move_op env m s d) as [[m1 r1]| |] eqn:Em; [|done|done].
     destruct (move_refines env m s d m1 r1 HW Em) as [Ha Hr]. destruct (spec_move env (abs m) s d) as [t1 rr]. cbn [fst snd] in *. subst t1 rr.
     injection Hs as <- <-. exists m1. split; [|done]. by destruct r1.
+  - (* listings *) injection Hs as <- <-. exists m. split; [|done]. rewrite <- resolve_abs.
+    destruct (resolve env m s) as [p|e] eqn:E; [|unfold listing_op; by rewrite E].
+    destruct (queries_refine m p HK) as (_ & Hd & _). rewrite <- Hd. fold (is_dir_at m p).
+    destruct (is_dir_at m p) eqn:Hdir; [by rewrite (listing_refines env m k s p HW HK E Hdir)|].
+    unfold listing_op. by rewrite E, Hdir.
   - (* chmod *) destruct (ch_follow o) eqn:Hnf; [discriminate|]. destruct (bool_decide (ch_sym o = [])) eqn:Hsy; [|discriminate].
     apply bool_decide_eq_true in Hsy. destruct (N.eqb (ch_dirs o) 0) eqn:Hd0; [discriminate|]. destruct (N.eqb (ch_files o) 0) eqn:Hf0; [discriminate|].
     apply N.eqb_neq in Hd0, Hf0. cbn [orb negb] in Hs. rewrite <- resolve_abs in Hs.
@@ -342,8 +351,10 @@ Example history_refines_nonvacuous :
            OSymlink [47; 97; 47; 108]%N [47; 97; 47; 98]%N;
            OChmod [47; 97]%N {| ch_dirs := 448; ch_files := 416; ch_follow := false; ch_recursive := true; ch_sym := [] |};
            OChown [47; 97; 47; 98]%N {| co_uid := Some 5%N; co_gid := None; co_follow := false; co_recursive := true |};
-           OMoveP [47; 97; 47; 98]%N [47; 99]%N; OSetCwd [47; 99]%N; OReadAll [102]%N; OMode [102]%N; ORemoveAll [47; 97]%N; ORoot] with
-  | Some (t, rs) => (size (t_nodes t) =? 3) && (length rs =? 12) &&
+           OMoveP [47; 97; 47; 98]%N [47; 99]%N; OSetCwd [47; 99]%N; OReadAll [102]%N; OMode [102]%N; ORemoveAll [47; 97]%N; ORoot;
+           OList LAllPaths [47]%N] with
+  | Some (t, rs) => (size (t_nodes t) =? 3) && (length rs =? 13) &&
+                    match nth 12 rs (inr EDoesNotExist) with inl (VPaths [[47; 99]%N; [47; 99; 47; 102]%N]) => true | _ => false end &&
                     match nth 8 rs (inr EDoesNotExist) with inl (VBytes [1%N]) => true | _ => false end &&
                     match nth 9 rs (inr EDoesNotExist) with inl (VNum v) => N.eqb v (N.lor 416 Gen.Consts.c_type_bits_file) | _ => false end
   | None => false
